@@ -1,12 +1,263 @@
 (* C23 Compile pipelines compose transforms and route results correctly.
-   Statements only; every proof is `exact <lemma>` from Disc/PipelineProofs.v. *)
+   Statements only; every proof is `exact <lemma>` from Disc/PipelineProofs.v (or a closed computation
+   for the *_refuted / *_documented statements about concrete pipelines). *)
 From Coq Require Import List ZArith Bool.
 From PLV Require Import Disc.PipelineModel Disc.PipelineProofs.
 Import ListNotations.
 Open Scope Z_scope.
 
+(* ============================== (a) ROUTING ============================== *)
+(* For ALL pipelines of arbitrary transforms (any fan-out, including 0), all batches, all executors:
+   post-processing the executed output batch = applying the transforms by hand to each input tape,
+   one value per input tape, in input order. *)
 Theorem pipeline_is_manual_composition :
   forall (T R : Type) (p : list (@transform T R)) (batch : list T) (run : T -> R),
     snd (call_tapes p batch) (map run (fst (call_tapes p batch))) = map (by_hand p run) batch.
 Proof. intros T R; exact call_tapes_spec. Qed.
 Print Assumptions pipeline_is_manual_composition.
+
+(* the execution batch is, in order, the concatenation of the leaves of the by-hand application *)
+Theorem execution_tapes_are_leaves :
+  forall (T R : Type) (p : list (@transform T R)) (batch : list T),
+    fst (call_tapes p batch) = flat_map (leaves p) batch.
+Proof. intros T R; exact call_tapes_leaves. Qed.
+Print Assumptions execution_tapes_are_leaves.
+
+(* the slice lemma used by the induction: the recorded slices cut the results back per input tape *)
+Theorem batch_slices_regroup :
+  forall (T R : Type) (f : @transform T R) (g : T -> R) (tapes : list T) (pre : list R),
+    batch_post (snd (step_loop f tapes (length pre)))
+               (pre ++ map g (fst (step_loop f tapes (length pre))))
+    = map (fun t => snd (f t) (map g (fst (f t)))) tapes.
+Proof. intros T R; exact step_loop_spec. Qed.
+Print Assumptions batch_slices_regroup.
+
+(* ============================== (b) CONTAINER ============================== *)
+(* len(pipeline) and iteration are those of the list `items` by definition of the model (they are
+   compared with the implementation after every step of the correspondence run). *)
+
+Theorem container_refines_list_append : forall p t,
+  (snd (append p t) = true <-> has_final (items p) = true /\ b_final t = true) /\
+  (snd (append p t) = true -> fst (append p t) = p) /\
+  (snd (append p t) = false ->
+     items (fst (append p t)) = items p ++ with_expand t /\ marks (fst (append p t)) = marks p).
+Proof. exact append_spec. Qed.
+Print Assumptions container_refines_list_append.
+
+Theorem container_refines_list_iadd : forall p q,
+  (snd (iadd_pipe p q) = true <-> has_final (items p) = true /\ has_final (items q) = true) /\
+  (snd (iadd_pipe p q) = true -> items (fst (iadd_pipe p q)) = items p) /\
+  (snd (iadd_pipe p q) = false -> items (fst (iadd_pipe p q)) = items p ++ items q).
+Proof. exact iadd_spec. Qed.
+Print Assumptions container_refines_list_iadd.
+
+Theorem container_refines_list_iadd_transform : forall p t,
+  snd (iadd_t p t) = false -> items (fst (iadd_t p t)) = items p ++ with_expand t.
+Proof. exact iadd_t_spec. Qed.
+Print Assumptions container_refines_list_iadd_transform.
+
+Theorem container_refines_list_add : forall p q,
+  (add_pipe p q = None <-> has_final (items p) = true /\ has_final (items q) = true) /\
+  (forall r, add_pipe p q = Some r -> items r = items p ++ items q).
+Proof. exact add_spec. Qed.
+Print Assumptions container_refines_list_add.
+
+Theorem container_refines_list_add_transform : forall p t r,
+  add_t p t = Some r -> items r = items p ++ with_expand t.
+Proof. exact add_t_spec. Qed.
+Print Assumptions container_refines_list_add_transform.
+
+(* transform + pipeline: list part as for lists; the markers are dropped (see finding) *)
+Theorem container_refines_list_radd : forall t p,
+  (radd t p = None <-> has_final (items p) = true /\ b_final t = true) /\
+  (forall r, radd t p = Some r -> items r = with_expand t ++ items p /\ marks r = []).
+Proof. exact radd_spec. Qed.
+Print Assumptions container_refines_list_radd.
+
+Theorem container_refines_list_mul : forall p n,
+  (mul p n = None <-> n < 0 \/ has_final (items p) = true) /\
+  (forall r, mul p n = Some r ->
+     items r = concat (repeat (items p) (Z.to_nat n)) /\ marks r = marks p).
+Proof. exact mul_spec. Qed.
+Print Assumptions container_refines_list_mul.
+
+(* insert with 0 <= index <= len: the transform together with its expand_transform goes to `index` *)
+Theorem container_refines_list_insert : forall p i t,
+  0 <= i <= zlen (items p) -> snd (insert p i t) = false ->
+  items (fst (insert p i t)) =
+    firstn (Z.to_nat i) (items p) ++ with_expand t ++ skipn (Z.to_nat i) (items p).
+Proof. exact insert_spec. Qed.
+Print Assumptions container_refines_list_insert.
+
+Theorem insert_raises_iff : forall p i t,
+  snd (insert p i t) = true <-> items p <> [] /\ b_final t = true.
+Proof. exact insert_raises. Qed.
+Print Assumptions insert_raises_iff.
+
+(* pop with any valid (also negative) index j: returns l[j]; removes l[j], and l[j-1] too exactly
+   when that entry equals the expand_transform of the popped transform *)
+Theorem container_refines_list_pop : forall p i j,
+  py_index (zlen (items p)) i = Some j ->
+  snd (pop p i) = Some (nthz (items p) j) /\
+  items (fst (pop p i)) =
+    (if pop_partner (items p) j
+     then firstn (Z.to_nat (j - 1)) (items p) ++ skipn (Z.to_nat (j + 1)) (items p)
+     else del_at (Z.to_nat j) (items p)).
+Proof. exact pop_items. Qed.
+Print Assumptions container_refines_list_pop.
+
+Theorem pop_index_error_is_noop : forall p i,
+  py_index (zlen (items p)) i = None -> pop p i = (p, None).
+Proof. exact pop_index_error. Qed.
+Print Assumptions pop_index_error_is_noop.
+
+Theorem container_refines_list_getitem : forall p i j,
+  py_index (zlen (items p)) i = Some j -> getitem p i = Some (nth (Z.to_nat j) (items p) dflt).
+Proof. exact getitem_spec. Qed.
+Print Assumptions container_refines_list_getitem.
+
+(* pipeline[a:b] with normalised bounds 0 <= a <= b <= len: the list slice, and the marker rule *)
+Theorem container_refines_list_slice : forall p a b,
+  0 <= a <= b -> b <= zlen (items p) ->
+  exists r, getslice p (Some a) (Some b) 1 = Some r /\
+    items r = firstn (Z.to_nat (b - a)) (skipn (Z.to_nat a) (items p)) /\
+    marks r = map_levels (fun v => v - a)
+                (filter (fun kv => (a <=? snd kv) &&
+                                   (snd kv <? (if b =? zlen (items p) then b + 1 else b))) (marks p)).
+Proof. exact getslice_step1. Qed.
+Print Assumptions container_refines_list_slice.
+
+(* remove: PARTIAL - only when no removed transform carries an expand_transform (then it is the list
+   filter); the interplay of remove with expand partners is covered by the correspondence run only *)
+Theorem container_refines_list_remove_partial : forall p o,
+  (forall x, In x (items p) -> rmatch o x = true -> expand_of x = None) ->
+  items (remove p o) = filter (fun x => negb (rmatch o x)) (items p).
+Proof. exact remove_filter. Qed.
+Print Assumptions container_refines_list_remove_partial.
+
+(* terminal-transform rule: at most one terminal transform, preserved by every growing operation *)
+Theorem terminal_transform_rule : forall p, one_final p ->
+  (forall t, one_final (fst (append p t))) /\
+  (forall q, one_final q -> one_final (fst (iadd_pipe p q))) /\
+  (forall q r, one_final q -> add_pipe p q = Some r -> one_final r) /\
+  (forall t r, radd t p = Some r -> one_final r) /\
+  (forall n r, mul p n = Some r -> one_final r) /\
+  (forall i t, one_final (fst (insert p i t))).
+Proof. exact one_final_preserved. Qed.
+Print Assumptions terminal_transform_rule.
+
+(* ============================== (c) MARKERS ============================== *)
+(* A marker at level v stands at the boundary (firstn v l | skipn v l).  For the operations below the
+   implementation's arithmetic keeps every marker attached: same prefix or same suffix. *)
+
+(* insert of ONE entry (transform without expand_transform) at 0 <= i <= len *)
+Theorem markers_insert_in_range : forall p i t v,
+  0 <= i <= zlen (items p) -> 0 <= v <= zlen (items p) ->
+  marks (fst (insert p i t)) = map_levels (fun v => if v >=? i then v + 1 else v) (marks p) /\
+  (v < i -> firstn (Z.to_nat (if v >=? i then v + 1 else v)) (list_insert i t (items p))
+            = firstn (Z.to_nat v) (items p)) /\
+  (i <= v -> skipn (Z.to_nat (if v >=? i then v + 1 else v)) (list_insert i t (items p))
+             = skipn (Z.to_nat v) (items p)).
+Proof. exact insert_marks_in_range. Qed.
+Print Assumptions markers_insert_in_range.
+
+Theorem markers_pop : forall p i j,
+  py_index (zlen (items p)) i = Some j ->
+  marks (fst (pop p i)) =
+    if pop_partner (items p) j
+    then map_levels (fun v => let v1 := if v >? j then v - 1 else v in
+                              if v1 >? j - 1 then v1 - 1 else v1) (marks p)
+    else map_levels (fun v => if v >? j then v - 1 else v) (marks p).
+Proof. exact pop_marks. Qed.
+Print Assumptions markers_pop.
+
+Theorem markers_pop_boundaries_single : forall (l : list bt) j v,
+  0 <= j < zlen l -> 0 <= v <= zlen l ->
+  (v <= j -> firstn (Z.to_nat (if v >? j then v - 1 else v)) (del_at (Z.to_nat j) l) = firstn (Z.to_nat v) l) /\
+  (j < v -> skipn (Z.to_nat (if v >? j then v - 1 else v)) (del_at (Z.to_nat j) l) = skipn (Z.to_nat v) l).
+Proof. exact delete_boundaries. Qed.
+Print Assumptions markers_pop_boundaries_single.
+
+Theorem markers_pop_boundaries_pair : forall (l : list bt) j v,
+  0 < j < zlen l -> 0 <= v <= zlen l ->
+  let v2 := (let v1 := if v >? j then v - 1 else v in if v1 >? j - 1 then v1 - 1 else v1) in
+  let l2 := firstn (Z.to_nat (j - 1)) l ++ skipn (Z.to_nat (j + 1)) l in
+  (v <= j - 1 -> firstn (Z.to_nat v2) l2 = firstn (Z.to_nat v) l) /\
+  (j < v -> skipn (Z.to_nat v2) l2 = skipn (Z.to_nat v) l) /\
+  (v = j -> v2 = j - 1).
+Proof. exact delete_pair_boundaries. Qed.
+Print Assumptions markers_pop_boundaries_pair.
+
+(* + and += : left markers keep their level (same prefix), right markers move by len(left) (same
+   suffix); a label present on both sides takes the right operand's (shifted) level *)
+Theorem markers_add : forall p q r k, add_pipe p q = Some r -> NoDup (map fst (marks q)) ->
+  dict_get k (marks r) =
+  match dict_get k (marks q) with Some v => Some (v + zlen (items p)) | None => dict_get k (marks p) end.
+Proof. exact add_marks. Qed.
+Print Assumptions markers_add.
+
+Theorem markers_iadd : forall p q k, NoDup (map fst (marks q)) ->
+  dict_get k (marks (fst (iadd_pipe p q))) =
+  match dict_get k (marks q) with Some v => Some (v + zlen (items p)) | None => dict_get k (marks p) end.
+Proof. exact iadd_marks. Qed.
+Print Assumptions markers_iadd.
+
+Theorem markers_concat_boundaries : forall (l1 l2 : list bt) v,
+  (0 <= v <= zlen l1 -> firstn (Z.to_nat v) (l1 ++ l2) = firstn (Z.to_nat v) l1) /\
+  (0 <= v -> skipn (Z.to_nat (v + zlen l1)) (l1 ++ l2) = skipn (Z.to_nat v) l2).
+Proof. exact app_boundaries. Qed.
+Print Assumptions markers_concat_boundaries.
+
+(* pipeline * n (documented: "markers are not duplicated"): same level, same prefix for n >= 1 *)
+Theorem markers_mul_keep_prefix : forall (l : list bt) n v, (1 <= n)%nat -> 0 <= v <= zlen l ->
+  firstn (Z.to_nat v) (repeat_list l n) = firstn (Z.to_nat v) l.
+Proof. exact mul_boundaries. Qed.
+Print Assumptions markers_mul_keep_prefix.
+
+(* slicing: a kept marker (a <= v <= b) has the same transforms between the cut and itself *)
+Theorem markers_slice_boundaries : forall (l : list bt) s e v, 0 <= s <= v -> v <= e ->
+  firstn (Z.to_nat (v - s)) (firstn (Z.to_nat (e - s)) (skipn (Z.to_nat s) l))
+  = skipn (Z.to_nat s) (firstn (Z.to_nat v) l).
+Proof. exact slice_boundaries. Qed.
+Print Assumptions markers_slice_boundaries.
+
+(* ---- where the transcribed arithmetic does NOT keep markers / pairs attached (reported as findings) ---- *)
+Definition tA := mkBT 0 0 None false.
+Definition tB := mkBT 1 1 None false.
+Definition tC := mkBT 2 2 None false.
+Definition tX := mkBT 3 3 (Some 20) false.
+Definition tE := mkBT (-1) 20 None false.
+Definition pAB := mkP [tA; tB] [(0, 0); (1, 1); (2, 2)].
+
+(* insert(-1, c) into [a, b] puts c at position 1, yet the marker at level 0 moves to level 1 *)
+Theorem markers_insert_negative_index_refuted :
+  fst (insert pAB (-1) tC) = mkP [tA; tC; tB] [(0, 1); (1, 2); (2, 3)].
+Proof. reflexivity. Qed.
+Print Assumptions markers_insert_negative_index_refuted.
+
+(* insert(1, x) with an expand_transform adds two entries; the end marker (level 2 of 2) ends at 3 of 4 *)
+Theorem markers_insert_expand_refuted :
+  fst (insert pAB 1 tX) = mkP [tA; tE; tX; tB] [(0, 0); (1, 2); (2, 3)].
+Proof. reflexivity. Qed.
+Print Assumptions markers_insert_expand_refuted.
+
+(* insert with an index outside 0..len puts the expand_transform AFTER its transform *)
+Theorem insert_expand_order_refuted :
+  items (fst (insert pAB (-1) tX)) = [tA; tX; tE; tB] /\ items (fst (insert pAB 5 tX)) = [tA; tB; tX; tE].
+Proof. split; reflexivity. Qed.
+Print Assumptions insert_expand_order_refuted.
+
+(* non-vacuity: the hypotheses used above are satisfiable, and a stacked uneven fan-out example *)
+Example hyps_satisfiable :
+  one_final pAB /\ py_index (zlen (items pAB)) (-1) = Some 1 /\
+  pop_partner [tA; tE; tX; tB] 2 = true /\
+  fst (pop (mkP [tA; tE; tX; tB] [(0, 0); (1, 2); (2, 4)]) (-2)) = mkP [tA; tB] [(0, 0); (1, 1); (2, 2)].
+Proof. repeat split; try reflexivity. unfold one_final; cbn; auto. Qed.
+
+Example routing_example :
+  let p := map syn_transform [mkSyn 1 0 0 [2; 0; 1]; mkSyn 2 0 0 [1; 3]] in
+  let r := call_tapes p [TBase 0; TBase 1; TBase 2] in
+  length (fst r) = 7%nat /\
+  snd r (map RRun (fst r)) = map (by_hand p RRun) [TBase 0; TBase 1; TBase 2] /\
+  nth 1 (snd r (map RRun (fst r))) (RRun (TBase 0)) = RPost 1 (TBase 1) [].
+Proof. repeat split; reflexivity. Qed.
